@@ -36,6 +36,11 @@ enum E {
     Rec(Vec<(u32, E)>),
     Proj(Box<E>, u32),
     Arr(Vec<E>),
+    /// `let f x = e1 in e2` (parameter form of a non-recursive let)
+    LetFun(u32, u32, Box<E>, Box<E>),
+    /// `rec let f1 x1 = e1 / let f2 = \x2 -> e2 / ... in body`: a recursive group of one-parameter
+    /// functions; the flag says whether the binding is written in parameter form
+    Group(Vec<(u32, u32, bool, E)>, Box<E>),
 }
 
 fn label_name(l: u32) -> String {
@@ -63,6 +68,8 @@ fn size(e: &E) -> usize {
         E::If(a, b, c) => 1 + size(a) + size(b) + size(c),
         E::Rec(fs) => 1 + fs.iter().map(|(_, e)| size(e)).sum::<usize>(),
         E::Arr(es) => 1 + es.iter().map(size).sum::<usize>(),
+        E::LetFun(_, _, a, b) => 2 + size(a) + size(b),
+        E::Group(bs, body) => 1 + bs.iter().map(|(_, _, _, e)| 1 + size(e)).sum::<usize>() + size(body),
     }
 }
 
@@ -136,6 +143,34 @@ fn features(e: &E, lambda_bound: &mut Vec<u32>, out: &mut (bool, bool, bool)) {
                 features(e, lambda_bound, out)
             }
         }
+        E::LetFun(f, x, a, b) => {
+            lambda_bound.push(*x);
+            features(a, lambda_bound, out);
+            lambda_bound.pop();
+            let saved: Vec<u32> = lambda_bound.clone();
+            lambda_bound.retain(|y| y != f);
+            features(b, lambda_bound, out);
+            *lambda_bound = saved;
+        }
+        E::Group(bs, body) => {
+            out.0 = true;
+            let saved: Vec<u32> = lambda_bound.clone();
+            // inside the group the functions are monomorphic (lambda-bound like), after it let-bound
+            for (f, _, _, _) in bs {
+                lambda_bound.push(*f);
+            }
+            for (_, x, _, e) in bs {
+                lambda_bound.push(*x);
+                features(e, lambda_bound, out);
+                lambda_bound.pop();
+            }
+            *lambda_bound = saved.clone();
+            for (f, _, _, _) in bs {
+                lambda_bound.retain(|y| y != f);
+            }
+            features(body, lambda_bound, out);
+            *lambda_bound = saved;
+        }
     }
 }
 fn feature_tags(e: &E) -> String {
@@ -154,55 +189,123 @@ fn feature_tags(e: &E) -> String {
     if tags.is_empty() { "core".to_string() } else { tags.join("+") }
 }
 
+/// What a program variable stands for while the model term is printed: itself, or the i-th
+/// component of the tuple-valued fixpoint that encodes a recursive group.
+#[derive(Clone)]
+enum Ref {
+    Plain,
+    Comp(u32, u32),
+}
+
+/// The model (Lang/Infer.v) has single recursive functions `EFix f x e` only.  A recursive group
+/// `rec let f1 x1 = e1 ... let fn xn = en in body` is given to the model in the (typing-wise exact)
+/// encoding
+///   let P = EFix p u (\x1 -> e1', ..., \xn -> en') in let f1 = (P ())._0 in ... let fn = (P ())._(n-1) in body
+/// where every use of fi inside the ei is replaced by (p ())._i: the fi are monomorphic inside the
+/// group, and each of them is generalised on its own after it, exactly as the group rule does.
+/// `let f x = e1 in e2` is `let f = \x -> e1 in e2`.
 fn model_tokens(e: &E, out: &mut String) {
+    let mut fresh = 900;
+    model_tokens_(e, &mut vec![], &mut fresh, out)
+}
+fn model_tokens_(e: &E, scope: &mut Vec<(u32, Ref)>, fresh: &mut u32, out: &mut String) {
     match e {
         E::I => out.push_str("I "),
         E::S => out.push_str("S "),
-        E::V(k) => out.push_str(&format!("V {} ", k)),
+        E::V(k) => {
+            let r = scope.iter().rev().find(|(y, _)| y == k).map(|(_, r)| r.clone()).unwrap_or(Ref::Plain);
+            match r {
+                Ref::Plain => out.push_str(&format!("V {} ", k)),
+                Ref::Comp(p, i) => out.push_str(&format!("P {} A V {} R 0 ", 3 + i, p)),
+            }
+        }
         E::Lam(x, b) => {
             out.push_str(&format!("L {} ", x));
-            model_tokens(b, out)
+            scope.push((*x, Ref::Plain));
+            model_tokens_(b, scope, fresh, out);
+            scope.pop();
         }
         E::App(a, b) => {
             out.push_str("A ");
-            model_tokens(a, out);
-            model_tokens(b, out)
+            model_tokens_(a, scope, fresh, out);
+            model_tokens_(b, scope, fresh, out)
         }
         E::Let(x, a, b) => {
             out.push_str(&format!("T {} ", x));
-            model_tokens(a, out);
-            model_tokens(b, out)
+            model_tokens_(a, scope, fresh, out);
+            scope.push((*x, Ref::Plain));
+            model_tokens_(b, scope, fresh, out);
+            scope.pop();
+        }
+        E::LetFun(f, x, a, b) => {
+            out.push_str(&format!("T {} L {} ", f, x));
+            scope.push((*x, Ref::Plain));
+            model_tokens_(a, scope, fresh, out);
+            scope.pop();
+            scope.push((*f, Ref::Plain));
+            model_tokens_(b, scope, fresh, out);
+            scope.pop();
         }
         E::Fix(f, x, b) => {
             out.push_str(&format!("F {} {} ", f, x));
-            model_tokens(b, out)
+            scope.push((*f, Ref::Plain));
+            scope.push((*x, Ref::Plain));
+            model_tokens_(b, scope, fresh, out);
+            scope.pop();
+            scope.pop();
+        }
+        E::Group(bs, body) => {
+            let big_p = *fresh;
+            let p = *fresh + 1;
+            let u = *fresh + 2;
+            *fresh += 3;
+            // let P = EFix p u (tuple of the functions) in
+            out.push_str(&format!("T {} F {} {} R {} ", big_p, p, u, bs.len()));
+            let n0 = scope.len();
+            for (i, (f, _, _, _)) in bs.iter().enumerate() {
+                scope.push((*f, Ref::Comp(p, i as u32)));
+            }
+            for (i, (_, x, _, e)) in bs.iter().enumerate() {
+                out.push_str(&format!("{} L {} ", 3 + i, x));
+                scope.push((*x, Ref::Plain));
+                model_tokens_(e, scope, fresh, out);
+                scope.pop();
+            }
+            scope.truncate(n0);
+            // let fi = (P ())._i in
+            for (i, (f, _, _, _)) in bs.iter().enumerate() {
+                out.push_str(&format!("T {} P {} A V {} R 0 ", f, 3 + i, big_p));
+                scope.push((*f, Ref::Plain));
+            }
+            model_tokens_(body, scope, fresh, out);
+            scope.truncate(n0);
         }
         E::If(c, a, b) => {
             out.push_str("C ");
-            model_tokens(c, out);
-            model_tokens(a, out);
-            model_tokens(b, out)
+            model_tokens_(c, scope, fresh, out);
+            model_tokens_(a, scope, fresh, out);
+            model_tokens_(b, scope, fresh, out)
         }
         E::Eq(a, b) => {
             out.push_str("Q ");
-            model_tokens(a, out);
-            model_tokens(b, out)
+            model_tokens_(a, scope, fresh, out);
+            model_tokens_(b, scope, fresh, out)
         }
         E::Rec(fs) => {
             out.push_str(&format!("R {} ", fs.len()));
             for (l, e) in fs {
                 out.push_str(&format!("{} ", l));
-                model_tokens(e, out)
+                model_tokens_(e, scope, fresh, out)
             }
         }
         E::Proj(e, l) => {
             out.push_str(&format!("P {} ", l));
-            model_tokens(e, out)
+            model_tokens_(e, scope, fresh, out)
         }
         E::Arr(es) => {
             out.push_str(&format!("Y {} ", es.len()));
             for e in es {
-                model_tokens(e, out)
+                model_tokens_(e, scope, fresh, out)
             }
         }
     }
@@ -227,14 +330,17 @@ impl Printer {
     fn new(naming: Naming) -> Printer {
         Printer { naming, counter: 0, scope: vec![] }
     }
-    fn bind(&mut self, x: u32) -> String {
-        let name = match self.naming {
+    fn fresh_name(&mut self, x: u32) -> String {
+        match self.naming {
             Naming::Level => format!("x{}", x),
             Naming::Unique => {
                 self.counter += 1;
                 format!("r{}_{}", self.counter, (b'a' + (self.counter % 26) as u8) as char)
             }
-        };
+        }
+    }
+    fn bind(&mut self, x: u32) -> String {
+        let name = self.fresh_name(x);
         self.scope.push((x, name.clone()));
         name
     }
@@ -251,7 +357,7 @@ impl Printer {
     }
     fn atom(&mut self, e: &E, out: &mut String) {
         match e {
-            E::I | E::S | E::V(_) | E::Rec(_) | E::Arr(_) | E::Proj(_, _) => self.expr(e, out),
+            E::I | E::S | E::V(_) | E::Rec(_) | E::Arr(_) | E::Proj(_, _) | E::Group(..) => self.expr(e, out),
             _ => {
                 out.push('(');
                 self.expr(e, out);
@@ -261,7 +367,7 @@ impl Printer {
     }
     fn branch(&mut self, e: &E, out: &mut String) {
         match e {
-            E::Let(..) | E::Fix(..) | E::If(..) | E::Lam(..) => self.atom(e, out),
+            E::Let(..) | E::LetFun(..) | E::Fix(..) | E::If(..) | E::Lam(..) => self.atom(e, out),
             _ => self.expr(e, out),
         }
     }
@@ -286,15 +392,56 @@ impl Printer {
             }
             E::Let(x, a, b) => {
                 // the binding is not recursive: a is printed outside the scope of x
-                let mut rhs = String::new();
+                let n = self.fresh_name(*x);
+                out.push_str(&format!("let {} = ", n));
                 match **a {
-                    E::Let(..) | E::Fix(..) | E::If(..) => self.atom(a, &mut rhs),
-                    _ => self.expr(a, &mut rhs),
+                    E::Let(..) | E::LetFun(..) | E::Fix(..) | E::If(..) => self.atom(a, out),
+                    _ => self.expr(a, out),
                 }
-                let n = self.bind(*x);
-                out.push_str(&format!("let {} = {} in ", n, rhs));
+                self.scope.push((*x, n));
+                out.push_str(" in ");
                 self.expr(b, out);
                 self.unbind()
+            }
+            E::LetFun(f, x, a, b) => {
+                // let f x = a in b: x scopes over a only, f over b only
+                let fname = self.fresh_name(*f);
+                let xname = self.fresh_name(*x);
+                out.push_str(&format!("let {} {} = ", fname, xname));
+                self.scope.push((*x, xname));
+                match **a {
+                    E::Let(..) | E::LetFun(..) | E::Fix(..) | E::If(..) => self.atom(a, out),
+                    _ => self.expr(a, out),
+                }
+                self.unbind();
+                self.scope.push((*f, fname));
+                out.push_str(" in ");
+                self.expr(b, out);
+                self.unbind()
+            }
+            E::Group(bs, body) => {
+                // printed over several lines, aligned just right of the opening parenthesis so that
+                // the block is indented deeper than every block that encloses it
+                let column = out.len() - out.rfind('\n').map_or(0, |i| i + 1);
+                let pad = " ".repeat(column + 1);
+                out.push_str("(rec");
+                let names: Vec<String> = bs.iter().map(|(f, _, _, _)| self.bind(*f)).collect();
+                for (i, (_, x, param_form, e)) in bs.iter().enumerate() {
+                    let xname = self.bind(*x);
+                    if *param_form {
+                        out.push_str(&format!("\n{}let {} {} = ", pad, names[i], xname));
+                    } else {
+                        out.push_str(&format!("\n{}let {} = \\{} -> ", pad, names[i], xname));
+                    }
+                    self.branch(e, out);
+                    self.unbind();
+                }
+                out.push_str(&format!("\n{}in ", pad));
+                self.expr(body, out);
+                out.push(')');
+                for _ in bs {
+                    self.unbind();
+                }
             }
             E::Fix(f, x, b) => {
                 let fname = self.bind(*f);
@@ -691,7 +838,7 @@ fn child_main() {
     let mut n = 0u64;
     for line in stdin.lock().lines() {
         let src = match line {
-            Ok(l) => l,
+            Ok(l) => l.replace('\u{1}', "\n"),
             Err(_) => break,
         };
         n += 1;
@@ -762,7 +909,7 @@ impl Impl {
         }
         let reply = {
             let (_, stdin, rx) = self.child.as_mut().unwrap();
-            let sent = writeln!(stdin, "{}", src).and_then(|_| stdin.flush());
+            let sent = writeln!(stdin, "{}", src.replace('\n', "\u{1}")).and_then(|_| stdin.flush());
             match sent {
                 Err(_) => None,
                 Ok(()) => rx.recv_timeout(std::time::Duration::from_secs(30)).ok(),
@@ -883,7 +1030,8 @@ enum Want {
 /// syntactic shape fits the position (a variable, application, projection or lambda in function
 /// position, ...), which keeps a large share of the terms typable; unbiased terms are mostly
 /// ill-typed.
-fn random_term(rng: &mut Rng, budget: usize, depth: u32, biased: bool, want: Want) -> E {
+fn random_term(rng: &mut Rng, budget: usize, depth: u32, mode: u8, want: Want) -> E {
+    let biased = mode > 0;
     let var = |rng: &mut Rng| -> Option<E> { if depth > 0 { Some(E::V(rng.below(depth as u64) as u32)) } else { None } };
     if budget <= 1 {
         let lit = |rng: &mut Rng| if rng.chance(1, 2) { E::I } else { E::S };
@@ -906,14 +1054,16 @@ fn random_term(rng: &mut Rng, budget: usize, depth: u32, biased: bool, want: Wan
     };
     // (weight, constructor id)
     let choices: &[(u64, u32)] = if !biased {
-        &[(3, 0), (3, 1), (3, 2), (1, 3), (2, 4), (1, 5), (3, 6), (3, 7), (1, 8)]
+        &[(3, 0), (3, 1), (3, 2), (1, 3), (2, 4), (1, 5), (3, 6), (3, 7), (1, 8), (1, 9), (1, 10)]
     } else {
         match want {
             Want::Fun => &[(5, 0), (2, 1), (2, 2), (1, 3), (1, 4), (2, 7)],
             Want::Int => &[(3, 1), (2, 2), (1, 4), (3, 7)],
             Want::Bool => &[(5, 5), (2, 1), (1, 2), (1, 7)],
             Want::Rec => &[(5, 6), (2, 1), (2, 2), (1, 4), (2, 7)],
-            Want::Any => &[(4, 0), (4, 1), (4, 2), (1, 3), (2, 4), (1, 5), (4, 6), (3, 7), (1, 8)],
+            // mode 2: nestings of lambdas inside tuples/records under applications and lets
+            Want::Any if mode == 2 => &[(4, 0), (5, 1), (2, 2), (1, 4), (8, 6), (1, 7), (2, 8), (2, 9), (1, 10)],
+            Want::Any => &[(4, 0), (4, 1), (4, 2), (1, 3), (2, 4), (1, 5), (4, 6), (3, 7), (1, 8), (1, 9), (1, 10)],
         }
     };
     let total: u64 = choices.iter().map(|c| c.0).sum();
@@ -926,7 +1076,7 @@ fn random_term(rng: &mut Rng, budget: usize, depth: u32, biased: bool, want: Wan
         }
         pick -= w;
     }
-    let sub = |rng: &mut Rng, b: usize, d: u32, w: Want| Box::new(random_term(rng, b, d, biased, w));
+    let sub = |rng: &mut Rng, b: usize, d: u32, w: Want| Box::new(random_term(rng, b, d, mode, w));
     match ctor {
         0 => E::Lam(depth, sub(rng, rest, depth + 1, Want::Any)),
         1 => {
@@ -973,7 +1123,7 @@ fn random_term(rng: &mut Rng, budget: usize, depth: u32, biased: bool, want: Wan
                 let remaining = nf - i;
                 let b = if remaining == 1 { left.max(1) } else { 1 + rng.below((left.saturating_sub(remaining)).max(1) as u64) as usize };
                 left = left.saturating_sub(b);
-                fs.push((*l, random_term(rng, b, depth, biased, Want::Any)));
+                fs.push((*l, random_term(rng, b, depth, mode, Want::Any)));
             }
             E::Rec(fs)
         }
@@ -987,6 +1137,37 @@ fn random_term(rng: &mut Rng, budget: usize, depth: u32, biased: bool, want: Wan
             };
             E::Proj(sub(rng, rest, depth, Want::Rec), l)
         }
+        9 => {
+            // let f x = a in b; the parameter is fresh or shadows a variable in scope
+            let (i, j) = split2(rng);
+            let x = if depth > 0 && rng.chance(1, 3) { rng.below(depth as u64) as u32 } else { depth };
+            let d_a = if x == depth { depth + 1 } else { depth };
+            E::LetFun(depth, x, sub(rng, i, d_a, Want::Any), sub(rng, j, depth + 1, want))
+        }
+        10 => {
+            // recursive group of 2 (sometimes 3) one-parameter functions; a parameter is fresh,
+            // shadows an outer variable, or has the name of a function of the group
+            let nb: u32 = if rest >= 6 && rng.chance(1, 4) { 3 } else { 2 };
+            let mut left = rest.saturating_sub(1).max(nb as usize + 1);
+            let mut bs = vec![];
+            for k in 0..nb {
+                let x = match rng.below(4) {
+                    0 if depth > 0 => rng.below(depth as u64) as u32,
+                    1 => depth + rng.below(nb as u64) as u32,
+                    _ => depth + nb,
+                };
+                let d_e = if x == depth + nb { depth + nb + 1 } else { depth + nb };
+                let remaining = (nb - k) as usize + 1;
+                let b = 1 + rng.below((left.saturating_sub(remaining)).max(1) as u64) as usize;
+                left = left.saturating_sub(b);
+                // only the first binding may be written as a lambda: check/src/recursion_check.rs
+                // treats `let g = \\x -> ..` in a group as a recursive *value* and (conservatively)
+                // rejects groups in which such a binding is referred to before it is complete
+                let param_form = k > 0 || rng.chance(2, 3);
+                bs.push((depth + k, x, param_form, random_term(rng, b, d_e, mode, Want::Any)));
+            }
+            E::Group(bs, sub(rng, left.max(1), depth + nb, want))
+        }
         _ => {
             let ne = (rng.below(3) as usize).min(rest);
             let mut es = vec![];
@@ -995,7 +1176,7 @@ fn random_term(rng: &mut Rng, budget: usize, depth: u32, biased: bool, want: Wan
                 let remaining = ne - i;
                 let b = if remaining == 1 { left.max(1) } else { 1 + rng.below((left.saturating_sub(remaining)).max(1) as u64) as usize };
                 left = left.saturating_sub(b);
-                es.push(random_term(rng, b, depth, biased, Want::Any));
+                es.push(random_term(rng, b, depth, mode, Want::Any));
             }
             E::Arr(es)
         }
@@ -1059,6 +1240,25 @@ fn parse_tokens(toks: &mut std::slice::Iter<&str>) -> Option<E> {
             }
             E::Arr(es)
         }
+        // corpus only: N f x e body = `let f x = e in body`;
+        // G n (f x form e)*n body = recursive group, form p (let f x = e) or l (let f = \x -> e)
+        "N" => {
+            let f = num(toks)?;
+            let x = num(toks)?;
+            let a = parse_tokens(toks)?;
+            E::LetFun(f, x, Box::new(a), Box::new(parse_tokens(toks)?))
+        }
+        "G" => {
+            let n = num(toks)?;
+            let mut bs = vec![];
+            for _ in 0..n {
+                let f = num(toks)?;
+                let x = num(toks)?;
+                let form = *toks.next()? == "p";
+                bs.push((f, x, form, parse_tokens(toks)?));
+            }
+            E::Group(bs, Box::new(parse_tokens(toks)?))
+        }
         _ => return None,
     })
 }
@@ -1084,12 +1284,14 @@ fn main() {
 
     if let Some(path) = &args.replay {
         let v: serde_json::Value = serde_json::from_str(&std::fs::read_to_string(path).expect("replay file")).expect("json");
-        let src = v["case"]["source"].as_str().expect("case.source").to_string();
+        // sources are stored on one line, a line break is written as the two characters \n
+        let src = v["case"]["source"].as_str().expect("case.source").replace("\\n", "\n");
         println!("source: {}", src);
         let o = imp.check(&src);
         println!("impl: {}   [{}]", o.line(), o.raw());
         println!("expected(model): {}", v["expected"].as_str().unwrap_or("?"));
         if let Some(vs) = v["case"]["variant_source"].as_str() {
+            let vs = &vs.replace("\\n", "\n");
             let o2 = imp.check(vs);
             println!("variant source: {}", vs);
             println!("variant impl: {}   [{}]", o2.line(), o2.raw());
@@ -1122,7 +1324,7 @@ fn main() {
         model_tokens(e, &mut m);
         writeln!(model_in, "{}", m.trim_end()).unwrap();
         writeln!(impl_out, "{}", o.line()).unwrap();
-        writeln!(cases, "{}", src).unwrap();
+        writeln!(cases, "{}", src.replace('\n', "\\n")).unwrap();
         writeln!(raw, "{}", o.raw()).unwrap();
         let tags = feature_tags(e);
         writeln!(tagsf, "{}", tags).unwrap();
@@ -1145,14 +1347,22 @@ fn main() {
         // metamorphic clauses of the property, on the implementation
         let mut variants: Vec<(&str, String)> = vec![];
         variants.push(("meta-alpha", source(e, Naming::Unique)));
-        variants.push(("meta-unused", format!("let zz_u = {} in {}", UNUSED[(fnv(src.as_bytes()) % 4) as usize], src)));
+        // a multi-line source keeps its columns: the added binding goes on a line of its own
+        let multi = src.contains('\n');
+        let unused = UNUSED[(fnv(src.as_bytes()) % 4) as usize];
+        variants.push(("meta-unused", if multi { format!("let zz_u = {}\n{}", unused, src) } else { format!("let zz_u = {} in {}", unused, src) }));
         if let Outcome::Type { printed, .. } = &o {
             // without the prelude the Bool type has no name in scope (`std.types.Bool` is printed,
             // which does not resolve), so types mentioning it cannot be written as an annotation
             if printed.contains("std.types.Bool") {
                 hist.add("meta-annot:skipped-bool");
             } else {
-                variants.push(("meta-annot", format!("let zz_it : {} = {} in zz_it", printed, src)));
+                if multi {
+                    let shifted: Vec<String> = src.lines().map(|l| format!("    {}", l)).collect();
+                    variants.push(("meta-annot", format!("let zz_it : {} =\n{}\nzz_it", printed, shifted.join("\n"))));
+                } else {
+                    variants.push(("meta-annot", format!("let zz_it : {} = {} in zz_it", printed, src)));
+                }
             }
         }
         for (kind, vsrc) in variants {
@@ -1161,7 +1371,7 @@ fn main() {
             if vo.line() != o.line() {
                 n_meta_bad += 1;
                 hist.add(&format!("{}:disagree", kind));
-                writeln!(meta, "{}\t{}\t{}\t{}\t{}\t{}\t{}", kind, tags, src, o.line(), vsrc, vo.line(), vo.raw()).unwrap();
+                writeln!(meta, "{}\t{}\t{}\t{}\t{}\t{}\t{}", kind, tags, src.replace('\n', "\\n"), o.line(), vsrc.replace('\n', "\\n"), vo.line(), vo.raw()).unwrap();
             }
         }
     };
@@ -1202,7 +1412,7 @@ fn main() {
     for i in 0..nrand {
         let budget = 5 + rng.below(6) as usize;
         let biased = i % 3 != 2;
-        let e = random_term(&mut rng, budget, 0, biased, Want::Any);
+        let e = random_term(&mut rng, budget, 0, if biased { 1 } else { 0 }, Want::Any);
         emit(&e, if biased { "random-shaped" } else { "random-uniform" }, &mut hist, &mut imp);
     }
 
@@ -1314,6 +1524,143 @@ fn main() {
         }
     }
 
+    // Family 5: recursive groups of two functions under an outer lambda, in parameter and lambda
+    // form, whose parameters are fresh, shadow the outer variable, or are named like a sibling
+    // (check/src/rename.rs scopes the parameters of every binding separately).
+    {
+        // indices: 0 outer lambda variable, 1 = f, 2 = g, 3 = fresh parameter
+        let bodies = |param: u32| -> Vec<E> {
+            vec![
+                E::V(0),
+                E::V(param),
+                E::I,
+                E::App(Box::new(E::V(1)), Box::new(E::V(param))),
+                E::App(Box::new(E::V(2)), Box::new(E::V(param))),
+                E::App(Box::new(E::V(2)), Box::new(E::V(0))),
+            ]
+        };
+        let results: Vec<E> = vec![
+            E::V(1),
+            E::V(2),
+            E::App(Box::new(E::V(2)), Box::new(E::I)),
+            E::Rec(vec![(3, E::V(1)), (4, E::V(2))]),
+        ];
+        let mut all = vec![];
+        for pf in [0u32, 2, 3] {
+            for pg in [0u32, 1, 3] {
+                for bf in bodies(pf) {
+                    for bg in bodies(pg) {
+                        for forms in 0..2u32 {
+                            for res in &results {
+                                let group = E::Group(
+                                    vec![(1, pf, forms & 1 == 0, bf.clone()), (2, pg, true, bg.clone())],
+                                    Box::new(res.clone()),
+                                );
+                                all.push(E::Lam(0, Box::new(group)));
+                            }
+                        }
+                    }
+                }
+            }
+        }
+        // three bindings: a parameter named like a LATER binding of the group
+        for third in [E::V(3), E::I, E::App(Box::new(E::V(1)), Box::new(E::V(3)))] {
+            for pf in [2u32, 3, 0] {
+                for form in [true, false] {
+                    all.push(E::Lam(
+                        0,
+                        Box::new(E::Group(
+                            vec![
+                                (1, pf, form, E::V(pf)),
+                                (4, 3, true, E::App(Box::new(E::V(2)), Box::new(E::V(3)))),
+                                (2, 3, true, third.clone()),
+                            ],
+                            Box::new(E::App(Box::new(E::V(4)), Box::new(E::I))),
+                        )),
+                    ));
+                }
+            }
+        }
+        let keep: u64 = 1;
+        for (i, e) in all.iter().enumerate() {
+            if keep == 1 || (fnv(format!("g{}:{}", args.seed, i).as_bytes()) % keep) == 0 || i >= 2592 {
+                emit(e, "rec-group-template", &mut hist, &mut imp);
+            }
+        }
+    }
+
+    // Family 6: a lambda inside a tuple/record/array that mentions the variable of an enclosing
+    // function, passed through an application of a (let-polymorphic) function and nested in a
+    // tuple/array/record (the generalizer must not let an inner quantifier capture the enclosing
+    // variable: check/src/typecheck/generalize.rs gather_foralls).
+    {
+        // indices: 0 = id (let-bound), 1 = y (enclosing), 2 = x (inner), 3 = p, 4 = g
+        let inner_bodies: Vec<E> = vec![
+            E::Rec(vec![(3, E::V(2)), (4, E::V(1))]),
+            E::V(1),
+            E::Rec(vec![(0, E::V(2)), (1, E::V(1))]),
+            E::Arr(vec![E::V(2), E::V(1)]),
+            E::V(2),
+        ];
+        let mut all = vec![];
+        for b in &inner_bodies {
+            let lam = E::Lam(2, Box::new(b.clone()));
+            let holders: Vec<E> = vec![
+                E::Rec(vec![(3, lam.clone()), (4, E::I)]),
+                E::Rec(vec![(0, lam.clone())]),
+                E::Rec(vec![(3, lam.clone()), (4, E::V(1))]),
+                E::Rec(vec![(3, E::I), (4, lam.clone())]),
+            ];
+            for h in &holders {
+                let applied: Vec<E> = vec![
+                    E::App(Box::new(E::V(0)), Box::new(h.clone())),
+                    E::App(Box::new(E::Lam(3, Box::new(E::V(3)))), Box::new(h.clone())),
+                    h.clone(),
+                    E::Let(3, Box::new(h.clone()), Box::new(E::V(3))),
+                ];
+                for a in &applied {
+                    let outers: Vec<E> = vec![
+                        E::Rec(vec![(3, a.clone()), (4, E::I)]),
+                        E::Arr(vec![a.clone()]),
+                        E::Rec(vec![(0, a.clone())]),
+                        a.clone(),
+                        E::Rec(vec![(3, E::I), (4, a.clone())]),
+                    ];
+                    for o in &outers {
+                        let idf = || E::Lam(2, Box::new(E::V(2)));
+                        all.push(E::Let(0, Box::new(idf()), Box::new(E::Lam(1, Box::new(o.clone())))));
+                        all.push(E::LetFun(
+                            0,
+                            2,
+                            Box::new(E::V(2)),
+                            Box::new(E::LetFun(4, 1, Box::new(o.clone()), Box::new(E::V(4)))),
+                        ));
+                        all.push(E::Let(
+                            0,
+                            Box::new(idf()),
+                            Box::new(E::Group(vec![(4, 1, true, o.clone())], Box::new(E::V(4)))),
+                        ));
+                    }
+                }
+            }
+        }
+        for e in &all {
+            emit(e, "nested-forall-template", &mut hist, &mut imp);
+        }
+    }
+
+    // Family 7: larger random terms (10..14 nodes) biased towards such nestings, inside
+    // `let id = \x -> x in ...`
+    {
+        let n: u64 = args.extra.get("nest").and_then(|s| s.parse().ok()).unwrap_or(if args.thorough() { 20000 } else { 3000 });
+        for _ in 0..n {
+            let budget = 9 + rng.below(5) as usize;
+            let body = random_term(&mut rng, budget, 1, 2, Want::Any);
+            let e = E::Let(0, Box::new(E::Lam(1, Box::new(E::V(1)))), Box::new(body));
+            emit(&e, "random-nested", &mut hist, &mut imp);
+        }
+    }
+
     drop(emit);
     model_in.flush().unwrap();
     impl_out.flush().unwrap();
@@ -1328,7 +1675,7 @@ fn main() {
             "typechecks": imp.n,
             "impl_crashes": imp.crashes,
             "distinct_nontrivial": nontrivial,
-            "rule": "closed terms of the ML fragment; exhaustive = every term with at most `exhaustive_maxsize` nodes over {1, \"s\", variables, \\x->e, application, let, if, #Int==, pair, {a=e}, {a=e,b=e}, e.a, e.b} with at most `exhaustive_maxdepth` nested binders (binder names canonical); random = 5..10 nodes over the full alphabet; non-trivial = at least 3 nodes, distinct by term",
+            "rule": "closed terms of the ML fragment; exhaustive = every term with at most `exhaustive_maxsize` nodes over {1, \"s\", variables, \\x->e, application, let, if, #Int==, pair, {a=e}, {a=e,b=e}, e.a, e.b} with at most `exhaustive_maxdepth` nested binders (binder names canonical); random = 5..10 nodes over the full alphabet (rec let, `let f x = ..`, recursive groups of 2-3 functions in parameter/lambda form whose parameters may shadow outer variables or be named like a sibling, arrays, labels c/_0/_1); templates: row interactions, polymorphic record fields, recursive groups under a lambda with shadowing parameters, lambdas inside tuples/records/arrays that mention an enclosing variable behind applications of let-polymorphic functions; random-nested = 10..14 nodes biased to such nestings; recursive groups are given to the model as a tuple-valued fixpoint (typing-wise exact encoding); non-trivial = at least 3 nodes, distinct by term",
             "exhaustive_maxsize": maxsize,
             "exhaustive_maxdepth": maxdepth,
             "exhaustive_count": exhaustive_count,
